@@ -188,7 +188,9 @@ macro_rules! impl_unsigned {
             #[inline(always)]
             fn decay(self, decay: f64) -> Self {
                 let value = self.to_f64() * decay;
-                Self::from_f64(value)
+                // `self as f64` rounds to nearest, so above 2^53 the scaled value can exceed `self`
+                // although `decay <= 1`; a decayed counter never grows.
+                Self::from_f64(value).min(self)
             }
         }
     };
